@@ -48,6 +48,31 @@ class Frame(object):
         return '%s.%s' % (self.cls, self.fn.name) if self.cls else self.fn.name
 
 
+def closure_snapshot(node, env, frame):
+    """the enclosing variables a nested function / lambda reads, as they are at its definition.  Python closures see later
+    re-assignments too; a variable that the enclosing function assigns again after the definition is therefore refused."""
+    own = set(a.arg for a in node.args.args + node.args.kwonlyargs)
+    if node.args.vararg:
+        own.add(node.args.vararg.arg)
+    if node.args.kwarg:
+        own.add(node.args.kwarg.arg)
+    body = node.body if isinstance(node.body, list) else [node.body]
+    for n in ast.walk(ast.Module(body=body, type_ignores=[]) if isinstance(node.body, list) else node.body):
+        if isinstance(n, ast.Name) and isinstance(n.ctx, ast.Store):
+            own.add(n.id)
+    free = set()
+    for b in body:
+        for n in ast.walk(b):
+            if isinstance(n, ast.Name) and isinstance(n.ctx, ast.Load) and n.id not in own:
+                free.add(n.id)
+    snap = dict((k, v) for k, v in env.items() if k in free)
+    end = getattr(node, 'end_lineno', node.lineno)
+    for n in ast.walk(frame.fn):
+        if isinstance(n, ast.Name) and isinstance(n.ctx, ast.Store) and n.id in snap and n.lineno > end:
+            raise Unsupported('closure over %s, which is assigned again after the definition in %s' % (n.id, frame.qual()))
+    return snap
+
+
 RECORD_ARGS = frozenset([('ExcludeRegionState', 'processLinearMoves')])
 
 
@@ -290,7 +315,7 @@ class Interp(object):
             raise AnalysisError('anchor vanished: %s.%s' % (cls, name))
         return self.run_fn(st, c, self.m.classes[c].module, fn, recv, list(args), kw or {}, depth)
 
-    def run_fn(self, st, cls, mod, fn, recv, args, kw, depth, node=None):
+    def run_fn(self, st, cls, mod, fn, recv, args, kw, depth, node=None, closure=None):
         """returns [(state, value | Raised)]"""
         self.stats['calls'] += 1
         if depth > MAX_DEPTH:
@@ -305,7 +330,7 @@ class Interp(object):
         pos = list(args)
         if recv is not None:
             pos = [recv] + pos
-        env = {}
+        env = dict(closure) if closure else {}
         dmap = dict(zip(params[len(params) - len(a.defaults):], a.defaults))
         kw = dict(kw)
         for i, p in enumerate(params):
@@ -527,6 +552,10 @@ class Interp(object):
                         nxt.extend(self.delete(s1, e1, t, frame))
                 out = nxt
             return out
+        if isinstance(s, ast.FunctionDef) and not s.decorator_list:
+            # a local helper function: a closure over a snapshot of the variables it reads
+            env[s.name] = FuncV(frame.mod, s, closure_snapshot(s, env, frame), frame.cls)
+            return [(st, env, None)]
         raise Unsupported('statement %s in %s' % (type(s).__name__, frame.qual()))
 
     def plain_if(self, st, env, s, frame):
